@@ -193,6 +193,10 @@ def _order_params(rname, rc):
     kws = {n: p for p, n in zip(rc["params"], rc["pnames"]) if n is not None}
     if not kws:
         return tuple(pos)
+    if rname == "bernoulli" and "probs" in kws and "logits" not in kws:
+        # the other documented parameterisation: canonical form is logits
+        q = np.asarray(kws.pop("probs"), dtype=np.float64)
+        kws["logits"] = np.log(q) - np.log1p(-q)
     order = _KWORDER[rname]
     out = list(pos)
     for n in order[len(pos):]:
